@@ -10,7 +10,7 @@ import z3
 from pyvc import ops
 from pyvc.contract import Case, Contract, LoopSpec, Registry, Shape
 from pyvc.types import BOOL, INT, REAL, STR, Atom, MapT, ObjT, Opt, SeqT, SetT
-from pyvc.values import fresh_name
+from pyvc.values import Val, fresh_name
 
 from . import world
 from .common import ID, RUNNER, SPEC, Types, runner_id_ok, spec_new_owner, spec_step_error
@@ -87,7 +87,8 @@ def glue_contracts(T: Types, reg: Registry):
             Case("unknown-id", when=lambda c: OREC.is_none(cell(c)), raises="KeyError", exact=True, ensures=unchanged(*all_fields)),
             # the state machine validates the edge first, then ownership: the class of the status error is determined
             Case("refused-no-such-edge", when=lambda c: z3.And(OREC.is_some(cell(c)), err(c), no_edge(c)), raises="InvocationStatusTransitionError",
-                 exact=True, ensures=unchanged(*all_fields)),
+                 exact=True, ensures=unchanged(*all_fields),
+                 exc_fields={"from_status": lambda c: Val(Opt(T.Status).some(T.Record.get(OREC.val(cell(c)), "status")), Opt(T.Status))}),
             Case("refused-not-the-owner", when=lambda c: z3.And(OREC.is_some(cell(c)), err(c), z3.Not(no_edge(c))), raises="InvocationStatusOwnershipError",
                  exact=True, ensures=unchanged(*all_fields)),
             Case("accepted", when=lambda c: z3.And(OREC.is_some(cell(c)), z3.Not(err(c))), ensures=[
@@ -327,6 +328,25 @@ def glue_part3(T: Types, reg: Registry, C: dict, base_req, all_fields):
         v = z3.Const(fresh_name("yv"), T.Invocation.sort())
         return z3.ForAll([v], z3.Implies(z3.Select(c.out_set, v), held_by(T, c.f(REC), T.Invocation.get(v, "invocation_id"), c.arg("runner_ctx"))))
 
+    def claims_only_what_it_yields(c, by_id=False):
+        """C11/C03: an id that this call moved under the runner (PENDING, owner = the runner) was handed to the caller."""
+        i = z3.Const(fresh_name("ci"), ID.sort())
+        if by_id:
+            handed = z3.Select(c.out_set, i)
+        else:
+            handed = z3.Select(c.out_set, T.inv_of(i))      # the stored invocation of that id (StateBackend.get_invocation contract)
+        return z3.ForAll([i], z3.Implies(z3.And(held_by(T, c.f(REC), i, c.arg("runner_ctx")), z3.Not(held_by(T, c.old(REC), i, c.arg("runner_ctx")))), handed))
+
+    def ownership_frame(c):
+        """C11/C02: a record that ends with an owner is either untouched or owned by the calling runner"""
+        i = z3.Const(fresh_name("of"), ID.sort())
+        return z3.ForAll([i], z3.Implies(z3.And(known(T, c.f(REC), i), OSTR.is_some(owner_of(T, c.f(REC), i))), z3.Or(
+            z3.Select(c.f(REC), i) == z3.Select(c.old(REC), i), owner_of(T, c.f(REC), i) == OSTR.some(T.RunnerCtx.get(c.arg("runner_ctx"), "runner_id")))))
+
+    def yielded_are_stored_ones(c):
+        v = z3.Const(fresh_name("ys"), T.Invocation.sort())
+        return z3.ForAll([v], z3.Implies(z3.Select(c.out_set, v), v == T.inv_of(T.Invocation.get(v, "invocation_id"))))
+
     def reroute_only_cc(c, cur, old):
         i = z3.Const(fresh_name("rc"), ID.sort())
         return z3.ForAll([i], z3.Implies(z3.Select(cur, i), z3.Or(z3.Select(old, i), z3.And(
@@ -347,6 +367,9 @@ def glue_part3(T: Types, reg: Registry, C: dict, base_req, all_fields):
             ("blocking-ids-still-held-by-this-runner", lambda c: all_held(c, blocking(c))),
             ("C02:yielded-invocations-are-PENDING-under-this-runner", yielded_held),
             ("to-reroute-grows-only-by-CONCURRENCY_CONTROLLED-ids", lambda c: reroute_only_cc(c, to_reroute(c), c.arg("invocations_to_reroute"))),
+            ("C11:claims-only-what-it-yields", claims_only_what_it_yields),
+            ("yielded-invocations-are-the-stored-ones-of-their-ids", yielded_are_stored_ones),
+            ("C11:no-record-is-put-under-another-runner", ownership_frame),
         ]
     gai = Contract(
         key=f"{BO}:BaseOrchestrator.get_additional_invocations_to_run", shape="Orchestrator",
@@ -389,6 +412,8 @@ def glue_part3(T: Types, reg: Registry, C: dict, base_req, all_fields):
         ("C02:blocking-ids-held-by-this-runner", lambda c: all_held(c, blocking(c))),
         ("yielded-are-in-the-blocking-set", lambda c: ops.set_subset(c.out_set, blocking(c), ID.sort())),
         ("wait-graph-untouched", lambda c: z3.And(c.f(WAITED) == c.old(WAITED), c.f(EDGES) == c.old(EDGES))),
+        ("C11:claims-only-what-it-yields", lambda c: claims_only_what_it_yields(c, by_id=True)),
+        ("C11:no-record-is-put-under-another-runner", ownership_frame),
     ]
     gbr = Contract(
         key=f"{BO}:BaseOrchestrator.get_blocking_invocations_to_run", shape="Orchestrator",
@@ -418,12 +443,21 @@ def glue_part3(T: Types, reg: Registry, C: dict, base_req, all_fields):
             ("yielded-so-far-are-in-the-blocking-set", lambda c: z3.ForAll([z3.Const("yv", T.Invocation.sort())], z3.Implies(
                 z3.Select(c.out_set, z3.Const("yv", T.Invocation.sort())),
                 z3.Select(c.v("blocking_invocation_ids"), T.Invocation.get(z3.Const("yv", T.Invocation.sort()), "invocation_id"))))),
+            ("yielded-invocations-are-the-stored-ones-of-their-ids", yielded_are_stored_ones),
+            ("C11:no-record-is-put-under-another-runner", ownership_frame),
+            ("domain-unchanged", lambda c: same_domain(T, c.f(REC), c.old(REC))),
+            ("C11:every-claimed-blocking-id-seen-so-far-was-yielded", lambda c: z3.ForAll([z3.Const("sy", ID.sort())], z3.Implies(
+                z3.Select(c.x("seen"), z3.Const("sy", ID.sort())), z3.Select(c.out_set, T.inv_of(z3.Const("sy", ID.sort())))))),
         ])},
         cases=[Case("claimed", ensures=[
             ("C03:no-id-stranded-at-exit", lambda c: Jall(T, c.f(REC), c.f(QUEUE))),
             ("C02:every-yielded-invocation-is-PENDING-under-this-runner", yielded_held),
+            ("C11:claims-only-what-it-yields", claims_only_what_it_yields),
+            ("yielded-invocations-are-the-stored-ones-of-their-ids", yielded_are_stored_ones),
+            ("C11:no-record-is-put-under-another-runner", ownership_frame),
+            ("domain-unchanged", lambda c: same_domain(T, c.f(REC), c.old(REC))),
         ])],
-        properties=["C02", "C03", "C09"])
+        properties=["C02", "C03", "C09", "C11"])
     gir.annotations = {"set[InvocationId]": SID}
     C["get_invocations_to_run"] = gir
     glue_part4(T, reg, C, world_req, all_fields)
